@@ -88,3 +88,104 @@ Proof. exact vars_eq. Qed.
 Print Assumptions C04_code_isolate_variable. Print Assumptions C04_code_substitute_variable.
 Print Assumptions C04_code_remove_variable. Print Assumptions C04_code_multiply. Print Assumptions C04_code_add.
 Print Assumptions C04_code_get_coefficient. Print Assumptions C04_code_contains_var. Print Assumptions C04_code_vars.
+
+(* ==== T1 tie (term list) ==== *)
+Require Import PyLoop PyTermList TermListGen TermListGenBase TermListGenElim TermListGenKaykobad TermListGenTactic4 TermListGenTactic32 TermListGenFacts.
+(* T1 tie: the pure-Python glue of PolyhedralTermList as translated from polyhedra.py ON THIS RUN (gen/TermListGen.v: _transform, _transform_term with the TACTICS table, the two elimination wrappers with the relaxation tail, _get_kaykobad_context, _tactic_1..5 and _tactic_trivial; LP, sympy and matrix building are the abstract primitives poly_prims O) IS model/Tactics.v, about which the theorems above speak. proofs/TermListGen*.v *)
+Theorem C04_code_tactics_table :
+  forall (O : oracle) (vs : list var),
+       @NoDup var vs ->
+       ~ @In var "_"%string vs ->
+       forall (num : nat) (term : pterm) (ctx : list pterm) (refine : bool),
+       wft' term ->
+       @Forall pterm wft' ctx ->
+       @PolyhedralTermList_TACTICS (poly_prims O) num term ctx vs refine = run_tactic O num term ctx vs refine.
+Proof. exact @tactics_table_eq. Qed.
+Print Assumptions C04_code_tactics_table.
+Theorem C04_code_transform_term :
+  forall (O : oracle) (vs : list var),
+       @NoDup var vs ->
+       ~ @In var "_"%string vs ->
+       forall (order : list nat) (term : pterm) (ctx : list pterm) (refine : bool),
+       wft' term ->
+       @Forall pterm wft' ctx ->
+       PolyhedralTermList__transform_term (@PolyhedralTermList_TACTICS (poly_prims O)) term ctx vs refine
+         (@Some (list nat) order) = transform_term O order term ctx vs refine.
+Proof. exact @transform_term_closed. Qed.
+Print Assumptions C04_code_transform_term.
+Theorem C04_code_transform :
+  forall (O : oracle) (vs : list var),
+       @NoDup var vs ->
+       ~ @In var "_"%string vs ->
+       forall (order : list nat) (self ctx : list pterm) (refine sp : bool),
+       @Forall pterm wft' self ->
+       @Forall pterm wft' ctx ->
+       @PolyhedralTermList__transform (poly_prims O) (@PolyhedralTermList_TACTICS (poly_prims O)) self ctx vs refine
+         sp (@Some (list nat) order) = transform O self ctx vs refine sp order.
+Proof. exact @transform_closed. Qed.
+Print Assumptions C04_code_transform.
+Theorem C04_code_elim_vars_by_refining :
+  forall (O : oracle) (vs : list var),
+       @NoDup var vs ->
+       ~ @In var "_"%string vs ->
+       forall (order : list nat) (self ctx : list pterm) (sp : bool),
+       @Forall pterm wft' self ->
+       @Forall pterm wft' ctx ->
+       @PolyhedralTermList_elim_vars_by_refining (poly_prims O) (@PolyhedralTermList_TACTICS (poly_prims O)) self ctx
+         vs sp (@Some (list nat) order) = elim_vars_by_refining O self ctx vs sp order.
+Proof. exact @elim_vars_by_refining_closed. Qed.
+Print Assumptions C04_code_elim_vars_by_refining.
+Theorem C04_code_elim_vars_by_relaxing :
+  forall (O : oracle) (vs : list var),
+       @NoDup var vs ->
+       ~ @In var "_"%string vs ->
+       forall (order : list nat) (self ctx : list pterm) (sp : bool),
+       @Forall pterm wft' self ->
+       @Forall pterm wft' ctx ->
+       @PolyhedralTermList_elim_vars_by_relaxing (poly_prims O) (@PolyhedralTermList_TACTICS (poly_prims O)) self ctx
+         vs sp (@Some (list nat) order) = elim_vars_by_relaxing O self ctx vs sp order.
+Proof. exact @elim_vars_by_relaxing_closed. Qed.
+Print Assumptions C04_code_elim_vars_by_relaxing.
+Theorem C04_code_get_kaykobad_context :
+  forall (term : pterm) (ctx : list pterm) (vs : list var) (refine : bool),
+       PolyhedralTermList__get_kaykobad_context term ctx vs refine = get_kaykobad_context term ctx vs refine.
+Proof. exact @get_kaykobad_context_eq. Qed.
+Print Assumptions C04_code_get_kaykobad_context.
+Theorem C04_code_tactic_1 :
+  forall (O : oracle) (term : pterm) (ctx : list pterm) (vs : list var) (refine : bool),
+       @PolyhedralTermList__tactic_1 (poly_prims O) term ctx vs refine = tactic_1 O term ctx vs refine.
+Proof. exact @tactic_1_eq. Qed.
+Print Assumptions C04_code_tactic_1.
+Theorem C04_code_tactic_2 :
+  forall (O : oracle) (term : pterm) (ctx : list pterm) (vs : list var) (refine : bool),
+       wft term ->
+       @Forall pterm wft ctx ->
+       @PolyhedralTermList__tactic_2 (poly_prims O) term ctx vs refine = tactic_2 O term ctx vs refine.
+Proof. exact @tactic_2_eq. Qed.
+Print Assumptions C04_code_tactic_2.
+Theorem C04_code_tactic_3 :
+  forall (O : oracle) (term : pterm) (ctx : list pterm) (vs : list var) (refine : bool),
+       wft' term ->
+       @Forall pterm wft ctx ->
+       @NoDup var vs ->
+       ~ @In var "_"%string vs ->
+       @PolyhedralTermList__tactic_3 (poly_prims O) term ctx vs refine = tactic_3 O term ctx vs refine.
+Proof. exact @tactic_3_eq. Qed.
+Print Assumptions C04_code_tactic_3.
+Theorem C04_code_tactic_4 :
+  forall (fuel : nat) (term : pterm) (ctx : list pterm) (vs : list var) (refine : bool) (no_vars : list var),
+       wft' term ->
+       Forall wft' ctx ->
+       PolyhedralTermList__tactic_4 fuel term ctx vs refine no_vars = tactic_4 fuel term ctx vs refine no_vars.
+Proof. exact @tactic_4_eq. Qed.
+Print Assumptions C04_code_tactic_4.
+Theorem C04_code_tactic_5 :
+  forall (O : oracle) (term : pterm) (ctx : list pterm) (vs : list var) (refine : bool),
+       @PolyhedralTermList__tactic_5 (poly_prims O) term ctx vs refine = tactic_5 O term ctx vs refine.
+Proof. exact @tactic_5_eq. Qed.
+Print Assumptions C04_code_tactic_5.
+Theorem C04_code_tactic_trivial :
+  forall (term : pterm) (ctx : list pterm) (vs : list var) (refine : bool),
+       wft term -> PolyhedralTermList__tactic_trivial term ctx vs refine = ret (Some (term_copy term), 1%nat).
+Proof. exact @tactic_trivial_eq. Qed.
+Print Assumptions C04_code_tactic_trivial.
